@@ -169,7 +169,7 @@ def run_case(b: Batch, cfg, filters, led, tp):
         u.populate(cfg.get("n_root", 4), cfg.get("n_out", 4))
         sess = MultiSession(u, filters, cfg["recursive"], cfg["full"], led, tp)
         pacer = Pacer()
-        gen = OpGen(u, r, bias=BIAS)
+        gen = OpGen(u, r, bias=BIAS, allow_out_ops=cfg.get("out_ops", False))
         why = sess.drain()
         ops = []
         for _ in range(cfg["n_ops"]):
@@ -290,7 +290,7 @@ def run_batch(spec):
                 else:
                     filters.append(frozenset(r.sample(allc, r.randint(3, 6))))
             cfg = {"seed": spec["seed"] * 100003 + spec["j"] * 1009 + n, "recursive": r.random() < 0.75, "full": r.random() < 0.25,
-                   "n_ops": r.randint(8, 22), "n_root": r.randint(1, 5), "n_out": r.randint(2, 4)}
+                   "n_ops": r.randint(8, 22), "n_root": r.randint(1, 5), "n_out": r.randint(2, 4), "out_ops": r.random() < 0.5}
             run_case(b, cfg, filters, led, tp)
     elif spec["kind"] == "case1":
         run_case(b, spec["cfg"], [by_names(n) for n in spec["filters"]], led, tp)
